@@ -117,6 +117,8 @@ func VerifC20_FindHTTPAddrs() {
 		// what maurl.FromURL produces for a URL with a path, and an address naming the peer
 		{c20ma("/dns/x.example/tcp/443/https/http-path/ipni-provider"), true},
 		{c20ma("/ip4/1.1.1.1/tcp/80/http/p2p/12D3KooWDGBNKP2MFMAvxW6LqMfUJYHkiUBQvzwqsAEKwPKqTzgQ"), true},
+		// an http-path component alone does not make an HTTP address
+		{c20ma("/dns/x.example/tcp/4002/ws/http-path/p2p%2Ffeed"), false},
 		{nil, false},
 	}
 	n := verif_Choose("entries", 0, 3)
